@@ -23,6 +23,9 @@ pub struct CrashCase {
     /// inserted after the original; mode 0 = exact copy, 1 = other QoS / other kind with the same id
     #[serde(default)]
     pub pollute: Vec<(u16, u16, u8)>,
+    /// the first connection attempt after the restore is refused (failing CONNACK, transport closed) before the resume
+    #[serde(default)]
+    pub refused_first: bool,
 }
 
 pub fn profile() -> Profile {
@@ -63,8 +66,8 @@ fn suffix_op() -> BoxedStrategy<Op> {
 pub fn strategy() -> BoxedStrategy<CrashCase> {
     let cfgs = (proptest::sample::select(vec![Role::Client, Role::Server, Role::Any]), proptest::sample::select(vec![CVer::V311, CVer::V5]), prop_oneof![4 => Just(2usize), 1 => Just(4usize)])
         .prop_map(|(role, ver, idw)| ConnCfg { role, ver, idw });
-    cfgs.prop_flat_map(|cfg| (history_for(profile(), cfg, no_hostile()), proptest::collection::vec(suffix_op(), 0..14), proptest::option::of(1u16..4), prop_oneof![2 => Just(vec![]), 1 => proptest::collection::vec((any::<u16>(), any::<u16>(), 0u8..2), 1..4)]))
-        .prop_map(|(mut h, suffix, rm, pollute)| {
+    cfgs.prop_flat_map(|cfg| (history_for(profile(), cfg, no_hostile()), proptest::collection::vec(suffix_op(), 0..14), proptest::option::of(1u16..4), prop_oneof![2 => Just(vec![]), 1 => proptest::collection::vec((any::<u16>(), any::<u16>(), 0u8..2), 1..4)], prop_oneof![3 => Just(false), 1 => Just(true)]))
+        .prop_map(|(mut h, suffix, rm, pollute, refused_first)| {
             // persistent sessions only: every handshake of the history asks for a kept session
             for op in h.ops.iter_mut() {
                 match op {
@@ -78,7 +81,7 @@ pub fn strategy() -> BoxedStrategy<CrashCase> {
                     _ => {}
                 }
             }
-            CrashCase { h, suffix, rm, only_prefix: None, pollute }
+            CrashCase { h, suffix, rm, only_prefix: None, pollute, refused_first }
         })
         .boxed()
 }
@@ -199,10 +202,19 @@ fn crash_at(c: &CrashCase, k: usize, st: &mut Stats) -> R {
         }
     }
     // ---- reconnect with the session present
-    let hs = resume_ops(if cfg.role == Role::Any { as_client || x.t.conn_seq == 0 } else { cfg.role == Role::Client }, v5, c.rm);
+    let mut hs = resume_ops(if cfg.role == Role::Any { as_client || x.t.conn_seq == 0 } else { cfg.role == Role::Client }, v5, c.rm);
     let y_as_client = matches!(hs[0], Op::Connect(_));
+    if c.refused_first {
+        // a refused attempt (the server answers with a failing CONNACK, the transport is closed) does not touch the session
+        let refusal = ConnackArgs { sp: false, fail: 3, p: HsProps::default() };
+        let mut pre = vec![hs[0].clone(), if y_as_client { Op::PeerConnack(refusal) } else { Op::Connack(refusal) }, Op::Closed];
+        pre.extend(hs);
+        hs = pre;
+        st.class("refused_attempt_before_resume");
+    }
     for op in &hs {
         y.exec(op);
+        check_wire("C16", y.steps.last().unwrap(), cfg.idw)?;
         if let Some(zw) = z.as_mut() {
             zw.exec(op);
             let (sy, sz) = (y.steps.last().unwrap(), zw.steps.last().unwrap());
@@ -254,6 +266,7 @@ fn crash_at(c: &CrashCase, k: usize, st: &mut Stats) -> R {
         let pre_handled: BTreeSet<u32> = y.c.qos2_handled().into_iter().collect();
         y.exec(op);
         let sy = y.steps.last().unwrap().clone();
+        check_wire("C16", &sy, cfg.idw)?;
         if sy.panic.is_some() {
             st.aborted_by_panic += 1;
             return Ok(());
